@@ -298,6 +298,34 @@ def generate():
     out.append("Definition parser_does_not_read_variables : bool := %s.%s" % (
         astlib.coq_bool(bool(nv)), "" if why_v is None else "  (* %s *)" % why_v))
 
+    def cache_key_exact():
+        """KlongInterpreter.__call__: the parse cache is keyed by the submitted text itself (and the module), and that text is what is parsed"""
+        im = astlib.module("klongpy/interpreter.py")
+        cls = astlib.find_class(im, "KlongInterpreter")
+        fn = astlib.find_func(cls, "__call__")
+        if [a.arg for a in fn.args.args] != ["self", "x"]:
+            raise ShapeError("__call__(self, x) expected")
+        keys = [n for n in ast.walk(fn) if isinstance(n, ast.Assign) and len(n.targets) == 1
+                and isinstance(n.targets[0], ast.Name) and n.targets[0].id == "cache_key"]
+        if len(keys) != 1 or ast.unparse(keys[0].value).replace(" ", "") != "(x,self._module)":
+            raise ShapeError("cache_key is not (x, self._module): %s" % (ast.unparse(keys[0].value) if keys else "no assignment"))
+        for n in ast.walk(fn):
+            if isinstance(n, (ast.Assign, ast.AugAssign)) and any(isinstance(t, ast.Name) and t.id == "x" for t in
+                                                                   (n.targets if isinstance(n, ast.Assign) else [n.target])):
+                raise ShapeError("__call__ reassigns x")
+        progs = [n for n in ast.walk(fn) if isinstance(n, ast.Call) and isinstance(n.func, ast.Attribute) and n.func.attr == "prog"]
+        if len(progs) != 1 or ast.unparse(progs[0]).replace(" ", "") != "self.prog(x)":
+            raise ShapeError("__call__ does not parse with exactly one self.prog(x)")
+        for n in ast.walk(fn):
+            if isinstance(n, ast.Subscript) and ast.unparse(n.value) == "self._parse_cache" and ast.unparse(n.slice) != "cache_key":
+                raise ShapeError("parse cache indexed by something else than cache_key")
+            if isinstance(n, ast.Call) and ast.unparse(n.func) == "self._parse_cache.get" and ast.unparse(n.args[0]) != "cache_key":
+                raise ShapeError("parse cache looked up by something else than cache_key")
+        return True
+    ck, why_k = astlib.try_flag(cache_key_exact)
+    out.append("Definition parse_cache_key_is_exact_text : bool := %s.%s" % (
+        astlib.coq_bool(bool(ck)), "" if why_k is None else "  (* %s *)" % why_k))
+
     ao, why = astlib.try_flag(arity_operand)
     out.append("Definition arity_scans_monad_operand : bool := %s.%s" % (
         astlib.coq_bool(bool(ao)), "" if why is None else "  (* shape not recognised: %s *)" % why))
@@ -929,6 +957,8 @@ def job_cpu_budget(job):
         return 30.0 + 0.02 * len(job[1])
     if k == "replay":
         return 30.0 + 0.01 * len(job[1])
+    if k == "wsfam":
+        return 60.0
     n = len(job[2]) if k in ("case", "mod") else len(job[1])
     return 15.0 + 0.005 * n
 
@@ -937,7 +967,7 @@ def job_text(job):
     k = job[0]
     if k in ("case", "mod"):
         return job[2]
-    if k in ("lex", "cache", "replay"):
+    if k in ("lex", "cache", "replay", "wsfam"):
         return job[1]
     if k == "hist":
         return job[2][-1][0]
@@ -985,7 +1015,22 @@ class Worker:
             return self.history(job[1], job[2])
         if k == "cache":
             return {"bad": self.cache(job[1])}
+        if k == "wsfam":
+            return {"bad": self.ws_family(job[1])}
         if k == "replay":
+            if job[3] == "__call__":
+                def mk():
+                    kk = self.impl.K()
+                    for t in WS_SETUP:
+                        kk(t)
+                    return kk
+                k1 = mk()
+                lines = ["setup     : %r (evaluated)" % (WS_SETUP,)]
+                for h in job[2]:
+                    lines.append("history   : klong(%r) -> %s" % (h, repr(self.call_outcome(k1, h))[:200]))
+                lines.append("fresh interpreter : klong(%r) -> %s" % (job[1], repr(self.call_outcome(mk(), job[1]))[:300]))
+                lines.append("actual            : klong(%r) -> %s" % (job[1], repr(self.call_outcome(k1, job[1]))[:300]))
+                return {"lines": lines}
             return {"lines": self.replay(job[1], job[2], job[3])}
         raise ValueError("unknown job %r" % (k,))
 
@@ -1018,6 +1063,39 @@ class Worker:
                         break
                 return {"bad": bad, "count": n}
         return {"bad": None, "count": n, "max_ratio": orc.max_ratio}
+
+    def call_outcome(self, k, text):
+        """klong(text) through __call__: value (type-sensitive dump) or exception class"""
+        impl = self.impl
+        e, _ = impl.budgeted(lambda: k(text), EVAL_BUDGET + BUDGET(len(text)))
+        return ("ok", impl.dump_value(e[1])) if e[0] == "ok" else tuple(e)
+
+    def ws_family(self, base):
+        """texts that differ only in surrounding white space, submitted through __call__ in every pairwise order on one
+        interpreter: what each submission evaluates to must be what a fresh interpreter gives for that very text"""
+        impl = self.impl
+        variants = [base, base + " ", base + "\t", base + "\n", " " + base, base + "  ", base + " \n", "\n" + base]
+
+        def mk():
+            k = impl.K()
+            for t in WS_SETUP:
+                k(t)
+            return k
+        fresh = {}
+        for v in variants:
+            fresh[v] = self.call_outcome(mk(), v)
+        for a in variants:
+            for b in variants:
+                if a == b:
+                    continue
+                k = mk()
+                self.call_outcome(k, a)
+                got = self.call_outcome(k, b)
+                if got != fresh[b] and "hang" not in (got[0], fresh[b][0]):
+                    return {"kind": "submission-depends-on-earlier-submission-differing-in-white-space", "text": b, "history": [a],
+                            "through": "KlongInterpreter.__call__ (parse cache)", "setup": WS_SETUP,
+                            "fresh_interpreter": repr(fresh[b])[:300], "after_history": repr(got)[:300]}
+        return None
 
     def replay(self, text, history, module):
         impl = self.impl
@@ -1418,6 +1496,7 @@ def second_sweep(chk, rng, sup, pool_err, pool_ok):
     rng.shuffle(texts)
     texts = texts[:300 if chk.tier == "quick" else 3000] + CACHE_TEXTS
     jobs += [["cache", t] for t in texts]
+    jobs += [["wsfam", b] for b in WS_BASES]
     results = sup.run(jobs, is_failure=lambda r: bool(r.get("bad")))
     bad = []
     for job, res in zip(jobs, results):
@@ -1431,6 +1510,9 @@ def second_sweep(chk, rng, sup, pool_err, pool_ok):
             chk.count("evaluations", res.get("parses", len(job[2])))
             chk.count("cases_history_parse", res.get("parses", len(job[2])))
             chk.count("history_reevaluations", res.get("reevals", 0))
+        elif job[0] == "wsfam":
+            chk.count("evaluations", 56)
+            chk.count("cases_whitespace_variant_pairs", 56)
         else:
             chk.count("evaluations", 5)
             chk.count("cases_call_cache", 5)
@@ -1586,6 +1668,11 @@ NESTED_LITERAL_TEXTS = [
     '*[:{[1 2]}]',
     '{[e];e::*[[1 2]];e,x;#e}(5)',
 ]
+# white-space variant families for __call__ (texts whose meaning can depend on trailing white space: character literal at the end,
+# open string, open comment; and controls ending in a symbol, a number, an operator, a closer)
+WS_SETUP = ['s::"a b\tc\nd e"', "v::[1 2 3]"]
+WS_BASES = ["s?0c", "0c", "#0c", "v,0c", "[1 0c", "f(0c", "{0c", 's,"ab', '#"ab', '"', 'v,"x""', ':"cm', '1 :"cm', 'v :"c""', "s", ":abc", "v", "12",
+            "1.5", "1e3", "v+", "#v", "v@0", "{x}(1)", "[1 2]", "1;2", "v;", ".comment(0c", '.comment("q', "0c0c", "v,0c ,0c"]
 CACHE_TEXTS = NESTED_LITERAL_TEXTS + ["a::7;a", "b::{x+1};b(2)", "a", ".module(:zz);a", "q::3", ":a", "[:a :b]", ":a,:b", "{:q}()", "0c:,:s",
                "[1 :{[1 2]}],1", "[:{[1 2]}]", "[1 2 3],4", "[[1] :{[1 2] [3 4]}],[2]", "q::[1 2];q,3", "[1 [2 :{[3 4]}]],5"]
 MODULES = ["m", "geo2"]
@@ -1687,7 +1774,7 @@ def replay(path):
     m = aux.mres(chk.run_model([model_req(text) if not rp.get("module") else model_req_m(text, rp["module"])])[0])
     sup = Supervisor(chk, 600.0)
     try:
-        job = ["replay", text, history, rp.get("module")]
+        job = ["replay", text, history, "__call__" if "__call__" in str(rp.get("through", "")) else rp.get("module")]
         res = sup.run([job])[0]
     finally:
         sup.close()
